@@ -60,11 +60,17 @@ theorem forestGood_append {cfg : Cfg} : ∀ (a b : List Node), ForestGood cfg a 
     exact ⟨ha.1, ih b ha.2 hb⟩
 
 mutual
-  /-- input leaves: plain (non-Markup) text or comments -/
+  /-- input leaves: plain (non-Markup) text, comments, the markers of CDATA sections (in any
+      arrangement: unclosed, stray, around text that holds `]]>`), processing instructions and
+      DOCTYPE declarations that hold a `>` — everything but the text is dropped by the filter -/
   def plainTree : Node → Bool
     | .elem _ _ ks => plainForest ks
     | .leaf (.text _ f) => !f
     | .leaf (.comment _) => true
+    | .leaf .startCdata => true
+    | .leaf .endCdata => true
+    | .leaf (.pi t d) => List.contains t '>' || List.contains d '>'
+    | .leaf (.doctype n p s) => dtHasGt n p s
     | .leaf _ => false
   def plainForest : List Node → Bool
     | [] => true
@@ -119,13 +125,19 @@ mutual
       | comment c => simp [prune] at h; subst h; trivial
       | start _ _ => simp [plainTree] at hpl
       | end_ _ => simp [plainTree] at hpl
-      | pi _ _ => simp [plainTree] at hpl
-      | doctype _ _ _ => simp [plainTree] at hpl
+      | pi t d =>
+        have hgt : (List.contains t '>' || List.contains d '>') = true := by simpa [plainTree] using hpl
+        simp only [prune, hgt, ↓reduceIte] at h
+        simp at h; subst h; trivial
+      | doctype n p s =>
+        have hgt : dtHasGt n p s = true := by simpa [plainTree] using hpl
+        simp only [prune, hgt, ↓reduceIte] at h
+        simp at h; subst h; trivial
       | xmlDecl _ _ _ => simp [plainTree] at hpl
       | startNs _ _ => simp [plainTree] at hpl
       | endNs _ => simp [plainTree] at hpl
-      | startCdata => simp [plainTree] at hpl
-      | endCdata => simp [plainTree] at hpl
+      | startCdata => simp [prune] at h; subst h; trivial
+      | endCdata => simp [prune] at h; subst h; trivial
   theorem pruneList_good (cfg : Cfg) : ∀ (ns p : List Node), plainForest ns = true → pruneList cfg ns = .ok p →
       ForestGood cfg p
     | [], p, _, h => by simp [pruneList] at h; subst h; trivial
